@@ -172,12 +172,12 @@ func TestVerif_C07(t *testing.T) {
 		return bScenario{Name: o.name, Bound: b, BoundT: bt, Body: c07Body(o)}
 	}
 	runBScenarios(t, "C07", []bScenario{
-		mk(c07Opts{name: "shm-shm-close", streams: []c07Stream{{sizes: []int{5, 20}, close: true}}}, 2, 3),
+		mk(c07Opts{name: "shm-shm-close", streams: []c07Stream{{sizes: []int{5, 20}, close: true}}}, 1, 2),
 		mk(c07Opts{name: "shm-fallback-sticky-close", freeSmall: 2, streams: []c07Stream{{sizes: []int{5, 100, 4}, close: true}}}, 2, 3),
 		mk(c07Opts{name: "fallback-close", freeSmall: 2, streams: []c07Stream{{sizes: []int{100}, close: true}}}, 2, 3),
 		mk(c07Opts{name: "two-streams-mixed", freeSmall: 3, streams: []c07Stream{{sizes: []int{5, 60}, close: true}, {sizes: []int{7, 6}, close: true}}}, 1, 2),
-		mk(c07Opts{name: "request-response", streams: []c07Stream{{sizes: []int{5}, close: true}}, respond: 6}, 2, 3),
-		mk(c07Opts{name: "callback-data-then-close", callback: true, streams: []c07Stream{{sizes: []int{5}, close: true}}}, 2, 3),
+		mk(c07Opts{name: "request-response", streams: []c07Stream{{sizes: []int{5}, close: true}}, respond: 6}, 1, 2),
+		mk(c07Opts{name: "callback-data-then-close", callback: true, streams: []c07Stream{{sizes: []int{5}, close: true}}}, 1, 2),
 		mk(c07Opts{name: "callback-two-streams", callback: true, freeSmall: 3, streams: []c07Stream{{sizes: []int{5, 60}}, {sizes: []int{7}}}}, 1, 2),
 	})
 }
